@@ -9,6 +9,10 @@
  *
  *   F isrec begin xsz recsize nd shape.. S start.. C count.. T|TN stride..
  *        -> <err> <npairs> off:len,...
+ *   Q recsize nreq { lead isrec begin xsz nd shape.. S start.. C count.. T|TN stride.. }
+ *        the real static flatten_reqs() on a hand-built NC / put_lead_list / NC_req array (requests with the
+ *        same `lead` share one NC_lead_req, i.e. are the per-record pieces of one multi-record request)
+ *        -> <err> <num_pairs> off:len,...
  *   M n off:len ...     (offsets/lengths multiples of 4; recv_buf word k holds the id k)
  *        -> s=<off:len:buf,... after qsort_off_len_buf> f=<off:len,... final> w=<ids of wr_buf words> n=<buf_count>
  */
@@ -73,6 +77,57 @@ int main(int argc, char **argv)
             OFFT *offs = NULL;
             LENT *lens = NULL;
             int err = flatten_req(&nc, &var, start, count, hasT ? stride : NULL, &np, &offs, &lens);
+            printf("%d %lld ", err, (long long)np);
+            for (i = 0; i < np; i++) printf("%s%lld:%lld", i ? "," : "", (long long)offs[i], (long long)lens[i]);
+            if (np == 0) printf("-");
+            printf("\n");
+            if (offs) NCI_Free(offs);
+            if (lens) NCI_Free(lens);
+        }
+        else if (strcmp(tok, "Q") == 0) {
+#define MAXQ 16
+            static NC nc;
+            static NC_lead_req leads[MAXQ];
+            static NC_var vars[MAXQ];
+            static NC_req reqs[MAXQ];
+            static MPI_Offset shapes[MAXQ][MAXD], scs[MAXQ][3 * MAXD];
+            int nreq, i, j, bad = 0, seen[MAXQ];
+            memset(&nc, 0, sizeof(nc));
+            memset(leads, 0, sizeof(leads));
+            memset(vars, 0, sizeof(vars));
+            memset(reqs, 0, sizeof(reqs));
+            memset(seen, 0, sizeof(seen));
+            nc.recsize = atoll(strtok(NULL, " \n"));
+            nreq = atoi(strtok(NULL, " \n"));
+            if (nreq > MAXQ) { printf("bad-op\n"); continue; }
+            nc.put_lead_list = leads;
+            for (i = 0; i < nreq && !bad; i++) {
+                int lead = atoi(strtok(NULL, " \n")), isrec = atoi(strtok(NULL, " \n"));
+                long long begin = atoll(strtok(NULL, " \n"));
+                int xsz = atoi(strtok(NULL, " \n")), nd = atoi(strtok(NULL, " \n")), hasT;
+                if (lead < 0 || lead >= MAXQ || nd > MAXD) { bad = 1; break; }
+                for (j = 0; j < nd; j++) shapes[lead][j] = atoll(strtok(NULL, " \n"));
+                if (isrec && nd > 0) shapes[lead][0] = NC_UNLIMITED;
+                strtok(NULL, " \n");
+                for (j = 0; j < nd; j++) scs[i][j] = atoll(strtok(NULL, " \n"));
+                strtok(NULL, " \n");
+                for (j = 0; j < nd; j++) scs[i][nd + j] = atoll(strtok(NULL, " \n"));
+                tok = strtok(NULL, " \n"); hasT = (strcmp(tok, "T") == 0);
+                for (j = 0; j < nd; j++) scs[i][2 * nd + j] = hasT ? atoll(strtok(NULL, " \n")) : 1;
+                vars[lead].ndims = nd; vars[lead].begin = begin; vars[lead].xsz = xsz;
+                vars[lead].shape = nd > 0 ? shapes[lead] : NULL;
+                leads[lead].varp = &vars[lead];
+                leads[lead].flag = hasT ? 0 : NC_REQ_STRIDE_NULL;
+                leads[lead].nonlead_num++;
+                if (!seen[lead]) { seen[lead] = 1; leads[lead].nonlead_off = i; leads[lead].start = scs[i]; }
+                reqs[i].lead_off = lead;
+                reqs[i].start = scs[i];
+            }
+            if (bad) { printf("bad-op\n"); continue; }
+            MPI_Aint np = 0;
+            OFFT *offs = NULL;
+            LENT *lens = NULL;
+            int err = flatten_reqs(&nc, nreq, reqs, &np, &offs, &lens);
             printf("%d %lld ", err, (long long)np);
             for (i = 0; i < np; i++) printf("%s%lld:%lld", i ? "," : "", (long long)offs[i], (long long)lens[i]);
             if (np == 0) printf("-");
